@@ -112,7 +112,7 @@ impl GraphQLRequest {
 
 impl From<GraphQLQuery> for GraphQLRequest {
     fn from(query: GraphQLQuery) -> Self {
-        let mut request = async_graphql::Request::new(query.query);
+        let mut request = async_graphql::Request::new(query.query).disallow_mutation();
 
         if let Some(operation_name) = query.operation_name {
             request = request.operation_name(operation_name);
